@@ -207,8 +207,9 @@ func (g *Graph) isSubjectFn(f *ssa.Function) bool {
 	if f == nil || len(f.Blocks) == 0 || !g.isRepoFn(f) {
 		return false
 	}
-	if f.Synthetic != "" && f.Parent() == nil {
-		// wrappers, bound methods, init: init is synthetic "package initializer" — keep it
+	if f.Synthetic != "" && f.Parent() == nil && f.Origin() == nil {
+		// wrappers, bound methods, init: init is synthetic "package initializer" — keep it; an
+		// instantiation of a hand-written generic function is hand-written code too
 		if !strings.HasPrefix(f.Synthetic, "package init") {
 			return false
 		}
